@@ -170,25 +170,19 @@ theorem encImpl_wire (t : CqlTy) (v : CqlVal) (buf out : Bytes) (hty : CqlSpec.w
 /-- **Typed carriers write the wire encoding of their embedding**: for every carrier `c`, Rust value `x` of
 that type (`wtVal`), CQL type `t` the carrier is compatible with (`compat`: everything but `MaybeEmpty` at a
 non-emptiable type and a set carrier at a vector type) with distinct UDT field names, if the embedding is a
-value of the type and the typed `serialize` succeeds, it has appended exactly `specCell t (embed c x)` —
-`Vec<Option<T>>`, `MaybeUnset<T>` (not `isDyn`) included. -/
+value of the type (`cellOk`; `hnb` — no bare null / unset vector element, C01-F2 — is implied by it but kept
+as a separate hypothesis) and the typed `serialize` succeeds, it has appended exactly
+`specCell t (embed c x)` — `Vec<Option<T>>` at a list, `MaybeUnset<T>` (not `isDyn`) included. -/
 theorem carrier_wire (c : Carrier) (t : CqlTy) (x : RustVal) (buf out : Bytes)
     (hwt : wtVal c x = true) (hc : compat c t = true) (hty : CqlSpec.wfTy t = true)
-    (hok : CqlSpec.cellOk t (embed c x) = true) (h : serCarrier c t x true buf = .ok out) :
+    (hok : CqlSpec.cellOk t (embed c x) = true)
+    (hnb : encSpec t (embed c x) true ≠ .error .bareNullInVector)
+    (h : serCarrier c t x true buf = .ok out) :
     ∃ s, out = buf ++ s ∧ CqlSpec.specCell t (embed c x) = some s := by
-  rw [CarrierFactor.factor c t x true buf hwt hc] at h
+  rw [CarrierFactor.factor c t x true buf hwt hc, encImpl_eq_encSpec t _ true buf hnb] at h
   cases hs : encSpec t (embed c x) true with
-  | error e =>
-    by_cases hb : e = .bareNullInVector
-    · -- a bare null / unset vector element is not a value of the type: excluded by `hok`
-      subst hb
-      exact absurd hok (CodecSpec.cellOk_not_bare t _ hty hs)
-    · rw [encImpl_eq_encSpec t _ true buf (by rw [hs]; intro h'; cases h'; exact hb rfl), hs] at h
-      cases h
-  | ok s =>
-    rw [encImpl_eq_encSpec t _ true buf (by rw [hs]; intro h'; cases h'), hs] at h
-    cases h
-    exact ⟨s, rfl, encSpec_is_wire t _ s hty hok hs⟩
+  | error e => rw [hs] at h; cases h
+  | ok s => rw [hs] at h; cases h; exact ⟨s, rfl, encSpec_is_wire t _ s hty hok hs⟩
 
 -- non-vacuity: a UDT value with reordered, duplicated (last wins) and missing fields
 set_option maxRecDepth 100000 in
@@ -201,7 +195,7 @@ example :
     pad t v = .udt "ks" "t" [("a", .int 1), ("b", .text [0x79, 0x7a]), ("c", .null)] ∧
     decBytes (fun _ => true) t [0, 0, 0, 0x12, 0, 0, 0, 4, 0, 0, 0, 1, 0, 0, 0, 2, 0x79, 0x7a, 0xff, 0xff, 0xff, 0xff] =
       .ok (pad t v) := by
-  refine ⟨by rfl, by rfl, by rfl, encSpec_is_wire _ _ _ (by rfl) (by rfl), by rfl, by rfl, by rfl⟩
+  refine ⟨by rfl, by rfl, by rfl, encSpec_is_wire _ _ _ (by rfl) (by decide) (by rfl), by rfl, by rfl, by rfl⟩
 
 /-! ### round trip -/
 
@@ -353,8 +347,10 @@ Full statement of the property (false of the current code, kept here on purpose)
       serCarrier c t x true [] = (encSpec t v true)      -- including `Vec<Option<T>>` bound to a vector
   (`carrier_factor` holds for it — the typed impl IS the dynamic one — but `encSpec` is undefined there: C01-F2)
 
-The proved statements are `roundtrip_partial` / `roundtrip_cell_partial` above, on the domain `wfVal`, which excludes exactly the shapes C01-F1,
-C01-F2, C01-F9 (plus degenerate types that are not CQL types).  Their witnesses, replayed on the real code by
+The proved statements are `roundtrip_partial` / `roundtrip_cell_partial` above, on the domain `wfVal` ("a CQL
+value of the type under the constructor the type dictates"), which leaves out these three defect shapes, values
+that are not values of the type (section "what `wfVal` excludes" at the end), cross-constructor bindings and
+degenerate non-CQL types.  The defect witnesses, replayed on the real code by
 `corpus/C01/known_findings.case`: -/
 
 def allUtf8 : Bytes → Bool := fun _ => true
@@ -362,12 +358,14 @@ def allUtf8 : Bytes → Bool := fun _ => true
 set_option maxRecDepth 100000
 
 /-- **C01-F1.** `CqlValue::Tuple(vec![])` bound to `tuple<int,int>` is written as the zero-length cell
-`00 00 00 00`, which decodes to `Empty`, not to the padded `Tuple([None, None])`. -/
+`00 00 00 00`, which decodes to `Empty`, not to the padded `Tuple([None, None])`; the serializer succeeds on
+something the protocol has no encoding for (`specCell = none`: NON-conformance). -/
 theorem roundtrip_counterexample :
     encImpl (.tuple [.native .int, .native .int]) (.tuple []) true [] = .ok [0, 0, 0, 0] ∧
     decBytes allUtf8 (.tuple [.native .int, .native .int]) [0, 0, 0, 0] = .ok .empty ∧
-    pad (.tuple [.native .int, .native .int]) (.tuple []) = .tuple [.null, .null] := by
-  refine ⟨by rfl, by rfl, by rfl⟩
+    pad (.tuple [.native .int, .native .int]) (.tuple []) = .tuple [.null, .null] ∧
+    CqlSpec.specCell (.tuple [.native .int, .native .int]) (.tuple []) = none := by
+  refine ⟨by rfl, by rfl, by rfl, by rfl⟩
 
 /-- **C01-F2.** `vec![None, Some(5)] : Vec<Option<i32>>` bound to `vector<int,2>`: the null is written as the
 raw bytes `ff ff ff ff` (`set_null` ignores `write_size`); the protocol has no encoding for it
@@ -377,8 +375,9 @@ theorem carrier_counterexample :
       .ok [0, 0, 0, 8, 0xff, 0xff, 0xff, 0xff, 0, 0, 0, 5] ∧
     encSpec (.vector (.native .int) 2) (.vector [.null, .int 5]) true = .error .bareNullInVector ∧
     decBytes allUtf8 (.vector (.native .int) 2) [0, 0, 0, 8, 0xff, 0xff, 0xff, 0xff, 0, 0, 0, 5] =
-      .ok (.vector [.int 0xffffffff, .int 5]) := by
-  refine ⟨by rfl, by rfl, by rfl⟩
+      .ok (.vector [.int 0xffffffff, .int 5]) ∧
+    CqlSpec.specCell (.vector (.native .int) 2) (.vector [.null, .int 5]) = none := by
+  refine ⟨by rfl, by rfl, by rfl, by rfl⟩
 
 /-- **C01-F8, repaired** (/repo 808d80c): `CqlValue::Vector([Text("a"), Text("")])` bound to `vector<text,2>`
 (`01 61 00`) now reads back; kept as a regression example (it used to fail with `ExpectedNonNull`). -/
@@ -392,8 +391,11 @@ example :
 is written as nothing: a 4-byte `vector<int,2>` that does not decode. -/
 theorem vector_empty_element_counterexample :
     encImpl (.vector (.native .int) 2) (.vector [.empty, .int 5]) true [] = .ok [0, 0, 0, 4, 0, 0, 0, 5] ∧
-    decBytes allUtf8 (.vector (.native .int) 2) [0, 0, 0, 4, 0, 0, 0, 5] = .error .expectedNonNull := by
-  refine ⟨by rfl, by rfl⟩
+    decBytes allUtf8 (.vector (.native .int) 2) [0, 0, 0, 4, 0, 0, 0, 5] = .error .expectedNonNull ∧
+    CqlSpec.specCell (.vector (.native .int) 2) (.vector [.empty, .int 5]) = none := by
+  refine ⟨by rfl, by rfl, ?_⟩
+  simp [CqlSpec.specCell, CqlSpec.cellOk, CqlSpec.isNullish, CqlSpec.valOk, CqlSpec.elemsOf, CqlSpec.fixedWidth,
+    CqlSpec.canBeEmpty, CqlSpec.nativeOk, CqlSpec.specNative, CqlSpec.layoutBody]
 
 /-! ### what `wfVal` excludes besides the known findings — each stated exactly
 
@@ -424,6 +426,48 @@ theorem null_list_element_example :
     encImpl (.list (.native .int)) (.list [.null]) true [] = .ok [0, 0, 0, 8, 0, 0, 0, 1, 0xff, 0xff, 0xff, 0xff] ∧
     decBytes allUtf8 (.list (.native .int)) [0, 0, 0, 8, 0, 0, 0, 1, 0xff, 0xff, 0xff, 0xff] = .error .expectedNonNull := by
   refine ⟨by rfl, by rfl, by rfl⟩
+
+/-- ∀ version: *every* `CqlTime` outside one day is written by the serializer (no range check), and its
+bytes are rejected by the deserializer with `ValueOverflow`; it is not a value of the type for the protocol. -/
+theorem time_out_of_range (u : Bytes → Bool) (x : BitVec 64) (buf : Bytes) (h : 86399999999999 < x.toNat) :
+    encImpl (.native .time) (.time x) true buf = .ok (buf ++ be32 8 ++ beBytes 8 x.toNat) ∧
+    decVal u (.native .time) (beBytes 8 x.toNat) = .error .valueOverflow ∧
+    CqlSpec.specCell (.native .time) (.time x) = none := by
+  refine ⟨?_, ?_, ?_⟩
+  · rw [encImpl]
+    simp [viewOf, encScalarImpl, setValue, Vint.beBytes_length, i32Max]
+  · rw [decVal]
+    have hn : ¬ (x.toNat ≤ 86399999999999) := by omega
+    simp [CodecDec.beBytes_ne_nil, decNative, Vint.beBytes_length, CodecDec.beNat_bv' 8 x (by decide), hn]
+  · have hn : ¬ (x.toNat ≤ 86399999999999) := by omega
+    simp [CqlSpec.specCell, CqlSpec.cellOk, CqlSpec.isNullish, CqlSpec.valOk, CqlSpec.nativeOk, hn]
+
+/-- ∀ version: *every* string with a byte ≥ 128 is written to an `ascii` column (the serializer does not look)
+and rejected on the way back with `ExpectedAscii`; it is not an ascii value for the protocol. -/
+theorem non_ascii (u : Bytes → Bool) (s buf : Bytes) (h : s.all (fun b => b < 128) = false)
+    (hl : s.length ≤ i32Max) :
+    encImpl (.native .ascii) (.ascii s) true buf = .ok (buf ++ be32 s.length ++ s) ∧
+    decVal u (.native .ascii) s = .error .expectedAscii ∧
+    CqlSpec.specCell (.native .ascii) (.ascii s) = none := by
+  refine ⟨?_, ?_, ?_⟩
+  · rw [encImpl]
+    have : ¬ (s.length > i32Max) := by omega
+    simp [viewOf, encScalarImpl, setValue, this]
+  · rw [decVal]
+    simp only [CqlTy.isStringLike, Bool.not_true, Bool.and_false, Bool.false_eq_true, if_false, decNative, h,
+      Bool.not_false, if_true]
+  · simp [CqlSpec.specCell, CqlSpec.cellOk, CqlSpec.isNullish, CqlSpec.valOk, CqlSpec.nativeOk, h]
+
+/-- ∀ version: a list / set cell whose *first* element is null is rejected by the dynamic decoder with
+`ExpectedNonNull`, whatever the element type, count and remaining bytes. -/
+theorem null_first_element (u : Bytes → Bool) (elt : CqlTy) (n : Nat) (rest : Bytes) (hn : n < i32Max) :
+    decVal u (.list elt) (be32 (n + 1) ++ nullBytes ++ rest) = .error .expectedNonNull := by
+  rw [decVal]
+  have he : (be32 (n + 1) ++ nullBytes ++ rest).isEmpty = false := by simp [be32, Vint.beBytes]
+  rw [List.append_assoc]
+  simp only [List.append_assoc] at he
+  simp only [he, Bool.false_and, Bool.false_eq_true, if_false, CodecDec.readCount_be32 (n + 1) _ (by omega),
+    decSeq, CodecDec.readCqlBytes_null]
 
 /-- **Cross-constructor bindings.**  The serializer looks at a value only through its *view*: `List`, `Set`
 and `Vector` are the same `Vec<CqlValue>`, `Ascii` and `Text` the same `String` — at every type, writer mode
